@@ -13,6 +13,9 @@ import Tranp.Driver.Span
 import Tranp.Driver.Errors
 import Tranp.Driver.CacheFS
 import Tranp.Driver.Infer
+import Tranp.Driver.Emit
+import Tranp.Driver.Runner
+import Tranp.Driver.Scope
 
 open Tranp.Driver
 
@@ -32,4 +35,7 @@ def main (args : List String) : IO UInt32 := do
   | ["errors"] => Errors.run; return 0
   | ["cachefs"] => CacheFS.run; return 0
   | ["infer"] => Infer.run; return 0
+  | ["emit"] => EmitFam.run; return 0
+  | ["runner"] => Runner.run; return 0
+  | ["scope"] => Scope.run; return 0
   | _ => IO.eprintln s!"unknown driver family: {args}"; return 2
